@@ -32,11 +32,15 @@ Obs(k) == vobs' = [key |-> k, devkey |-> k]
 Load(h, L) ==
   /\ vlibs' = [vlibs EXCEPT ![h] = [srcs |-> <<L>>, last |-> None]]
   /\ Obs(<<"contents", <<L>>>>) /\ UNCHANGED <<vdecs, vests>>
-\* merge the contents of handle h2 into h1 (the scheme of h1 is kept)
-Update(h1, h2) ==
-  /\ h1 # h2 /\ Loaded(h1) /\ Loaded(h2)
-  /\ vlibs' = [vlibs EXCEPT ![h1].srcs = vlibs[h1].srcs \o vlibs[h2].srcs]
-  /\ Obs(<<"contents", vlibs[h1].srcs \o vlibs[h2].srcs>>) /\ UNCHANGED <<vdecs, vests>>
+\* merge the contents of handle h2 into h1 (the scheme of h1 is kept; h2 is only read).
+\* With ow the data of h2 win over what h1 has; that merge is written "!" before the
+\* source in the key and is modelled for a single-source h2 only (a flat key cannot say
+\* "the merged h2, as a whole, wins").
+Merged(h1, h2, ow) == vlibs[h1].srcs \o (IF ow THEN <<"!">> ELSE <<>>) \o vlibs[h2].srcs
+Update(h1, h2, ow) ==
+  /\ h1 # h2 /\ Loaded(h1) /\ Loaded(h2) /\ (ow => Len(vlibs[h2].srcs) = 1)
+  /\ vlibs' = [vlibs EXCEPT ![h1].srcs = Merged(h1, h2, ow)]
+  /\ Obs(<<"contents", Merged(h1, h2, ow)>>) /\ UNCHANGED <<vdecs, vests>>
 Decompose(h, m) ==
   /\ Loaded(h) /\ Len(vdecs) < MaxObjs
   /\ vlibs' = [vlibs EXCEPT ![h].last = m]                       \* hidden state of the code
@@ -58,7 +62,7 @@ EvalGroup(h, g, p, t) ==
   /\ Loaded(h) /\ Obs(<<"group", vlibs[h].srcs, g, p, t>>) /\ UNCHANGED <<vlibs, vdecs, vests>>
 
 LNext == \/ \E h \in Handles, L \in LibNames : Load(h, L)
-         \/ \E h1 \in Handles, h2 \in Handles : Update(h1, h2)
+         \/ \E h1 \in Handles, h2 \in Handles, ow \in BOOLEAN : Update(h1, h2, ow)
          \/ \E h \in Handles, m \in Mols : Decompose(h, m)
          \/ \E h \in Handles, d \in 1..MaxObjs : Estimate(h, d)
          \/ \E e \in 1..MaxObjs, p \in Props, t \in Temps, sel \in BOOLEAN : Eval(e, p, t, sel)
@@ -72,7 +76,7 @@ HistoryFree == Computed = vobs.key
 \* computing results never alters any library's data
 ReadOnlyStep == \A h \in Handles :
    (vlibs'[h].srcs # vlibs[h].srcs) =>
-      (\E L \in LibNames : vlibs'[h].srcs = <<L>>) \/ (\E h2 \in Handles : vlibs'[h].srcs = vlibs[h].srcs \o vlibs[h2].srcs)
+      (\E L \in LibNames : vlibs'[h].srcs = <<L>>) \/ (\E h2 \in Handles, ow \in BOOLEAN : vlibs'[h].srcs = Merged(h, h2, ow))
 ReadOnly == [][ReadOnlyStep]_lvars
-Bound == TLCGet("level") <= 6 /\ \A h \in Handles : Len(vlibs[h].srcs) <= 2
+Bound == TLCGet("level") <= 6 /\ \A h \in Handles : Len(vlibs[h].srcs) <= 3
 =============================================================================
